@@ -1,5 +1,5 @@
 """C16 — dose filtering applies the Grant-Grigorieff exposure attenuation (DESIGN.md section 4, C16)."""
-import os, ast, math, tempfile
+import os, ast, math, copy, struct, tempfile, traceback, random as _random
 from fractions import Fraction
 import numpy as np
 import core
@@ -11,7 +11,16 @@ PARALLEL = True
 
 # ------------------------------------------------------------------ translator
 REL = "cryocat/tiltstack.py"
-# documented skeletons, used only as fall-back text when an anchor is missing (Props/C16 states them again)
+RELIO = "cryocat/ioutils.py"
+# documented names of the local variables, in the order of their first binding: the translator renames the locals of the
+# CURRENT source to these by position, so that renaming a local variable changes nothing (G5) while any change of structure
+# (operators, constants, order of operations, call keywords, added / removed statements) changes the regenerated text
+DOC_LOCALS = {
+    "dose_filter_single_image": ["a", "b", "c", "ft", "q", "filtered_image"],
+    "dose_filter": ["ts", "frequency_array", "cen_x", "cen_y", "rstep_x", "rstep_y", "x", "y", "d", "z", "image"],
+    "total_dose_load": ["df", "mdoc_file", "image_dose", "prior_dose", "total_dose", "sorted_df", "result_df"],
+}
+# documented skeletons = fall-back text when an anchor is missing (Props/C16 states them again; anchorsOk is false then)
 DOC = dict(
     qExpr="np.exp(-dose/(2*(a*freq_array**b+c)))",
     ftExpr="np.fft.fftshift(np.fft.fft2(image))",
@@ -27,18 +36,148 @@ DOC = dict(
     doseLoad="ioutils.total_dose_load(total_dose)",
     pixelCast="float(pixel_size)",
     returnExpr="ts.correct_order()",
+    freqInit="np.zeros((ts.height,ts.width))",
+    tsInit="TiltStack(tilt_stack=tilt_stack,input_order=input_order,output_order=output_order)",
+    singleSig="dose_filter_single_image(image,dose,freq_array)",
+    stackSig="dose_filter(tilt_stack,pixel_size,total_dose,output_file=None,input_order='xyz',output_order='xyz')",
+    doseLoadSig="total_dose_load(input_dose,sort_mdoc=True)",
 )
+DOC_CONST = dict(a=[49, 200], b=[-333, 200], c=[281, 100])   # 0.245, -1.665, 2.81 (the statement's constants)
 
 
-def _assign_value(fn, target):
-    """value node of the (single) top-level-or-nested assignment `target = ...` inside fn"""
-    hits = []
+def _params(fn):
+    a = fn.args
+    return [x.arg for x in a.posonlyargs + a.args + a.kwonlyargs] + ([a.vararg.arg] if a.vararg else []) + ([a.kwarg.arg] if a.kwarg else [])
+
+
+def canonical(fn, doc_names):
+    """copy of the function with its local variables renamed, by order of first binding, to the documented names"""
+    fn = copy.deepcopy(fn)
+    params = set(_params(fn))
+    stores = sorted((n for n in ast.walk(fn) if isinstance(n, ast.Name) and isinstance(n.ctx, (ast.Store, ast.Del))),
+                    key=lambda n: (n.lineno, n.col_offset))
+    order = []
+    for n in stores:
+        if n.id not in params and n.id not in order:
+            order.append(n.id)
+    ren = {name: (doc_names[i] if i < len(doc_names) else f"v{i}") for i, name in enumerate(order)}
     for n in ast.walk(fn):
-        if isinstance(n, ast.Assign) and len(n.targets) == 1 and core.norm_expr(n.targets[0]) == target:
-            hits.append(n.value)
-    if len(hits) != 1:
-        raise core.AnchorMissing(f"{fn.name}: expected exactly one assignment to {target}, found {len(hits)}")
-    return hits[0]
+        if isinstance(n, ast.Name) and n.id in ren:
+            n.id = ren[n.id]
+    return fn
+
+
+def _is_doc(st):
+    return isinstance(st, ast.Expr) and isinstance(st.value, ast.Constant) and isinstance(st.value.value, str)
+
+
+def _is_print(st):
+    return isinstance(st, ast.Expr) and isinstance(st.value, ast.Call) and isinstance(st.value.func, ast.Name) and st.value.func.id == "print"
+
+
+def body_dump(stmts, depth=0):
+    """normalised dump of a statement list: one string per statement (kind + expressions), nesting shown by leading dots;
+    docstrings and bare print(...) calls are dropped"""
+    ne = core.norm_expr
+    pre = "." * depth
+    out = []
+    for st in stmts:
+        if _is_doc(st) or _is_print(st):
+            continue
+        if isinstance(st, ast.For):
+            out.append(f"{pre}for {ne(st.target)} in {ne(st.iter)}")
+            out += body_dump(st.body, depth + 1)
+            if st.orelse:
+                out.append(pre + "else"); out += body_dump(st.orelse, depth + 1)
+        elif isinstance(st, ast.While):
+            out.append(f"{pre}while {ne(st.test)}")
+            out += body_dump(st.body, depth + 1)
+            if st.orelse:
+                out.append(pre + "else"); out += body_dump(st.orelse, depth + 1)
+        elif isinstance(st, ast.If):
+            out.append(f"{pre}if {ne(st.test)}")
+            out += body_dump(st.body, depth + 1)
+            if st.orelse:
+                out.append(pre + "else"); out += body_dump(st.orelse, depth + 1)
+        elif isinstance(st, ast.With):
+            out.append(pre + "with " + ",".join(ne(i.context_expr) + ("as" + ne(i.optional_vars) if i.optional_vars else "") for i in st.items))
+            out += body_dump(st.body, depth + 1)
+        elif isinstance(st, ast.Try):
+            out.append(pre + "try"); out += body_dump(st.body, depth + 1)
+            for h in st.handlers:
+                out.append(pre + "except " + (ne(h.type) if h.type else "")); out += body_dump(h.body, depth + 1)
+            if st.orelse:
+                out.append(pre + "else"); out += body_dump(st.orelse, depth + 1)
+            if st.finalbody:
+                out.append(pre + "finally"); out += body_dump(st.finalbody, depth + 1)
+        elif isinstance(st, ast.Return):
+            out.append(pre + "return " + (ne(st.value) if st.value is not None else ""))
+        elif isinstance(st, ast.Raise):
+            exc = st.exc.func if isinstance(st.exc, ast.Call) else st.exc   # the message text is not part of the structure
+            out.append(pre + "raise " + (ne(exc) if exc is not None else ""))
+        elif isinstance(st, (ast.FunctionDef, ast.ClassDef)):
+            out.append(pre + "def " + st.name + "(" + ne(st.args) + ")" if isinstance(st, ast.FunctionDef) else pre + "class " + st.name)
+            out += body_dump(st.body, depth + 1)
+        else:
+            out.append(pre + ast.unparse(st).replace(" ", "").replace("\n", ";"))
+    return out
+
+
+def _root_name(t):
+    while isinstance(t, (ast.Subscript, ast.Attribute, ast.Starred)):
+        t = t.value
+    return t.id if isinstance(t, ast.Name) else None
+
+
+def _bindings(fn, name):
+    """every statement that stores into `name` (plain assignment, augmented assignment, subscript / attribute store,
+    loop target, with-target, walrus, del) -> list of (kind, node)"""
+    out = []
+
+    def targets(t):
+        if isinstance(t, (ast.Tuple, ast.List)):
+            for e in t.elts:
+                yield from targets(e)
+        else:
+            yield t
+
+    for n in ast.walk(fn):
+        if isinstance(n, ast.Assign):
+            for tt in n.targets:
+                for t in targets(tt):
+                    if _root_name(t) == name:
+                        out.append(("assign" if isinstance(t, ast.Name) and len(n.targets) == 1 and t is tt else
+                                    ("store" if not isinstance(t, ast.Name) else "multi-assign"), n))
+        elif isinstance(n, (ast.AugAssign, ast.AnnAssign)):
+            if _root_name(n.target) == name:
+                out.append(("augassign" if isinstance(n, ast.AugAssign) else "annassign", n))
+        elif isinstance(n, (ast.For, ast.comprehension)):
+            for t in targets(n.target):
+                if _root_name(t) == name:
+                    out.append(("loop", n))
+        elif isinstance(n, ast.With):
+            for i in n.items:
+                if i.optional_vars is not None and any(_root_name(t) == name for t in targets(i.optional_vars)):
+                    out.append(("with", n))
+        elif isinstance(n, ast.NamedExpr):
+            if n.target.id == name:
+                out.append(("walrus", n))
+        elif isinstance(n, ast.Delete):
+            if any(_root_name(t) == name for t in n.targets):
+                out.append(("del", n))
+    return out
+
+
+def _assign_value(fn, target, extra_stores=0):
+    """value of THE assignment `target = ...` inside fn; every other statement that writes to `target` (augmented
+    assignment `t *= 2`, subscript store `t[mask] = 0`, a second assignment ...) is counted and makes the anchor fail"""
+    b = _bindings(fn, target)
+    plain = [n for k, n in b if k == "assign"]
+    other = [k for k, n in b if k != "assign"]
+    if len(plain) != 1 or len(other) != extra_stores:
+        raise core.AnchorMissing(f"{fn.name}: expected exactly one assignment to {target}" + (f" and {extra_stores} element store(s)" if extra_stores else "")
+                                 + f", found {len(plain)} assignment(s) and other writes {other}")
+    return plain[0].value
 
 
 def _const(fn, name):
@@ -60,16 +199,26 @@ def _for_loops(fn):
     return [n for n in ast.walk(fn) if isinstance(n, ast.For)]
 
 
+def _sig(fn):
+    return fn.name + "(" + ast.unparse(fn.args).replace(" ", "") + ")"
+
+
 def translate(src):
-    single = src.anchor("dose_filter_single_image", lambda: src.find(REL, "dose_filter_single_image").name)
-    stack = src.anchor("dose_filter", lambda: src.find(REL, "dose_filter").name)
+    src.anchor("dose_filter_single_image", lambda: src.find(REL, "dose_filter_single_image").name)
+    src.anchor("dose_filter", lambda: src.find(REL, "dose_filter").name)
     vals = {}
+    cache = {}
+
+    def canon(rel, name):
+        if name not in cache:
+            cache[name] = canonical(src.find(rel, name), DOC_LOCALS[name])
+        return cache[name]
 
     def in_single(f):
-        return lambda: f(src.find(REL, "dose_filter_single_image"))
+        return lambda: f(canon(REL, "dose_filter_single_image"))
 
     def in_stack(f):
-        return lambda: f(src.find(REL, "dose_filter"))
+        return lambda: f(canon(REL, "dose_filter"))
 
     a = src.anchor("dose_filter_single_image:a", in_single(lambda fn: _const(fn, "a")))
     b = src.anchor("dose_filter_single_image:b", in_single(lambda fn: _const(fn, "b")))
@@ -90,12 +239,14 @@ def translate(src):
     vals["rstepX"] = src.anchor("dose_filter:rstep_x", in_stack(lambda fn: core.norm_expr(_assign_value(fn, "rstep_x"))))
     vals["rstepY"] = src.anchor("dose_filter:rstep_y", in_stack(lambda fn: core.norm_expr(_assign_value(fn, "rstep_y"))))
     vals["freqExpr"] = src.anchor("dose_filter:d", in_stack(lambda fn: core.norm_expr(_assign_value(fn, "d"))))
+    vals["freqInit"] = src.anchor("dose_filter:frequency_array-init", in_stack(lambda fn: core.norm_expr(_assign_value(fn, "frequency_array", extra_stores=1))))
+    vals["tsInit"] = src.anchor("dose_filter:ts", in_stack(lambda fn: core.norm_expr([n for k, n in _bindings(fn, "ts") if k == "assign"][0].value)
+                                                         if len([1 for k, n in _bindings(fn, "ts") if k == "assign"]) == 1 else (_ for _ in ()).throw(core.AnchorMissing("dose_filter: ts = TiltStack(...)"))))
 
     def store(fn):
-        hits = [n for n in ast.walk(fn) if isinstance(n, ast.Assign) and isinstance(n.targets[0], ast.Subscript)
-                and core.norm_expr(n.targets[0]).startswith("frequency_array[")]
-        if len(hits) != 1:
-            raise core.AnchorMissing("dose_filter: frequency_array[..] = .. store")
+        hits = [n for k, n in _bindings(fn, "frequency_array") if k != "assign"]
+        if len(hits) != 1 or not isinstance(hits[0], ast.Assign):
+            raise core.AnchorMissing(f"dose_filter: exactly one frequency_array[..] = .. store expected, found {len(hits)} other writes")
         return core.norm_expr(hits[0].targets[0]) + "=" + core.norm_expr(hits[0].value)
 
     vals["freqStore"] = src.anchor("dose_filter:frequency_array-store", in_stack(store))
@@ -103,7 +254,7 @@ def translate(src):
     def loop_range(var):
         def f(fn):
             hits = [n for n in _for_loops(fn) if core.norm_expr(n.target) == var]
-            if len(hits) != 1:
+            if len(hits) != 1 or len(_bindings(fn, var)) != 1:
                 raise core.AnchorMissing(f"dose_filter: for {var} in ...")
             return core.norm_expr(hits[0].iter)
         return f
@@ -114,8 +265,8 @@ def translate(src):
     vals["imageExpr"] = src.anchor("dose_filter:image", in_stack(lambda fn: core.norm_expr(_assign_value(fn, "image"))))
 
     def pair(fn):
-        hits = [n for n in ast.walk(fn) if isinstance(n, ast.Assign) and "dose_filter_single_image" in ast.unparse(n.value)]
-        if len(hits) != 1:
+        hits = [n for n in ast.walk(fn) if isinstance(n, (ast.Assign, ast.AugAssign)) and "dose_filter_single_image" in ast.unparse(n.value)]
+        if len(hits) != 1 or not isinstance(hits[0], ast.Assign):
             raise core.AnchorMissing("dose_filter: call of dose_filter_single_image")
         return core.norm_expr(hits[0].targets[0]) + "=" + core.norm_expr(hits[0].value)
 
@@ -123,10 +274,20 @@ def translate(src):
     vals["doseLoad"] = src.anchor("dose_filter:total_dose", in_stack(lambda fn: core.norm_expr(_assign_value(fn, "total_dose"))))
     vals["pixelCast"] = src.anchor("dose_filter:pixel_size", in_stack(lambda fn: core.norm_expr(_assign_value(fn, "pixel_size"))))
     vals["returnExpr"] = src.anchor("dose_filter:return", in_stack(ret))
+    # signatures: parameter names and DEFAULT values (G1)
+    vals["singleSig"] = src.anchor("dose_filter_single_image:signature", lambda: _sig(src.find(REL, "dose_filter_single_image")))
+    vals["stackSig"] = src.anchor("dose_filter:signature", lambda: _sig(src.find(REL, "dose_filter")))
+    vals["doseLoadSig"] = src.anchor("ioutils.total_dose_load:signature", lambda: _sig(src.find(RELIO, "total_dose_load")))
+    # whole bodies, normalised (statement kinds + expressions, locals renamed to the documented names): added statements,
+    # element stores (`q[freq_array > 0.4] = 0`), augmented assignments (`ft *= 2`) and never-executed branches are visible
+    bodies = {}
+    bodies["singleBody"] = src.anchor("dose_filter_single_image:whole-body", lambda: body_dump(canon(REL, "dose_filter_single_image").body))
+    bodies["stackBody"] = src.anchor("dose_filter:whole-body", lambda: body_dump(canon(REL, "dose_filter").body))
+    bodies["doseLoadBody"] = src.anchor("ioutils.total_dose_load:whole-body", lambda: body_dump(canon(RELIO, "total_dose_load").body))
 
     def dose_passthrough():
-        fn = src.find("cryocat/ioutils.py", "total_dose_load")
-        first = fn.body[1] if isinstance(fn.body[0], ast.Expr) else fn.body[0]
+        fn = canon(RELIO, "total_dose_load")
+        first = fn.body[1] if _is_doc(fn.body[0]) else fn.body[0]
         if not isinstance(first, ast.If):
             raise core.AnchorMissing("total_dose_load: leading isinstance chain")
         t = core.norm_expr(first.test) + "->" + core.norm_expr(first.body[0].value)
@@ -140,17 +301,22 @@ def translate(src):
         v = v if v is not None else d
         return f"({v[0]}, {v[1]})"
 
-    lines = [f"-- GENERATED by harness/props/c16.py from {REL} and cryocat/ioutils.py; do not edit",
+    lines = [f"-- GENERATED by harness/props/c16.py from {REL} and {RELIO}; do not edit",
              "namespace CryoCat.Gen.C16",
              f"def anchorsOk : Bool := {'true' if src.ok else 'false'}",
-             "/-- the literals `a`, `b`, `c` of `dose_filter_single_image` as exact decimal fractions (numerator, denominator) -/",
-             f"def ggA : Int × Int := {frac(a, [0, 1])}",
-             f"def ggB : Int × Int := {frac(b, [0, 1])}",
-             f"def ggC : Int × Int := {frac(c, [0, 1])}"]
+             "/-- the literals `a`, `b`, `c` of `dose_filter_single_image` as exact decimal fractions (numerator, denominator);",
+             "when an anchor is missing the DOCUMENTED value stands here and `anchorsOk` is false -/",
+             f"def ggA : Int × Int := {frac(a, DOC_CONST['a'])}",
+             f"def ggB : Int × Int := {frac(b, DOC_CONST['b'])}",
+             f"def ggC : Int × Int := {frac(c, DOC_CONST['c'])}"]
     for k in DOC:
         v = vals.get(k)
-        lines.append(f"def {k} : String := {core.lean_str(v if isinstance(v, str) else '<missing>')}")
+        lines.append(f"def {k} : String := {core.lean_str(v if isinstance(v, str) else DOC[k])}")
     lines.append(f"def doseLoadPassthrough : String := {core.lean_str(dl if isinstance(dl, str) else '<missing>')}")
+    for k in ("singleBody", "stackBody", "doseLoadBody"):
+        v = bodies.get(k)
+        v = v if isinstance(v, list) else ["<missing>"]
+        lines.append(f"def {k} : List String := [\n  " + ",\n  ".join(core.lean_str(s) for s in v) + "]")
     lines.append("end CryoCat.Gen.C16")
     return "\n".join(lines) + "\n"
 
@@ -158,36 +324,64 @@ def translate(src):
 # ------------------------------------------------------------------ documentation constants
 RULE = ("stacks of 1..10 images, width and height drawn independently from 4..64 (even and odd; half of the draws from 4..12, "
         "30% from 4..24, 20% from 4..64), pixel size 0.5..10 A (uniform, typical values, and the end points), per-image doses on the "
-        "1/8 grid in 0..300 e/A^2 in random order (0 and 300 forced in often), images: random (integers/8 + offset), pure plane waves at a "
-        "chosen integer frequency incl. Nyquist and DC offset, impulses, constants; float64 (80%) and float32 stacks; doses passed as "
-        "list / float64 ndarray / float32 ndarray / one-value-per-line text file; xyz and zyx array orders; entry points dose_filter (85%) "
-        "and dose_filter_single_image (15%, with a harness-built fftshifted |fftfreq| array). Modes: plain, linear (third image = "
-        "alpha*first + beta*second, equal doses), monotone (one image, several doses), compose (filter d1 then d2 vs once d1+d2), and a 3% "
-        "malformed stream (dose list shorter than the stack -> must raise). The 2-D DFT (numpy) of every output image is compared at EVERY "
-        "frequency with gain * DFT(input): gain from the Lean driver executing Model/C16 `doseFilter` at Float, and independently from the "
-        "formula of the statement. non-trivial = valid case with >= 2 images, >= 2 distinct doses, some gain < 0.99; distinct = distinct case content")
+        "1/8 grid in 0..300 e/A^2 in random order (0 and 300 forced in often; in 15% of the multi-image plain cases an exact 0.0 is forced "
+        "directly before a non-zero dose), images: random (integers/8 + offset), pure plane waves at a chosen integer frequency incl. Nyquist "
+        "and DC offset, impulses, constants. dtype: float64 72%, float32 18%, int16 6%, int8 4% (integer stacks hold integer pixel values). "
+        "Doses reach the code as list / float64 ndarray / float32 ndarray / one-value-per-line text / .csv with CorrectedDose (with and "
+        "without a Removed column and removed rows) / .mdoc with PriorRecordDose+ExposureDose / .mdoc with ExposureDose and DateTime only "
+        "(sections written in acquisition order with dose-symmetric tilt angles: the loader re-sorts by tilt angle, dose_i is the dose of "
+        "the i-th image in tilt order); 6% of the cases pass 1..3 surplus doses. The stack is an ndarray (xyz or zyx) or, in ~10% of the "
+        "cases with >= 2 non-float64 images, the path of an MRC file; ~10% pass output_file and the written file is re-read by the harness's "
+        "own MRC parser. Each of the keywords output_file / input_order / output_order is OMITTED with probability 0.3 (the documented default "
+        "None / 'xyz' / 'xyz' is then what the harness expects). Entry points dose_filter (85%) and dose_filter_single_image (15%, with a "
+        "harness-built fftshifted |fftfreq| array re-used for every image). Modes: plain, linear (third image = alpha*first + beta*second, equal "
+        "doses), monotone (one image, several doses), compose (filter d1, then filter the RETURNED array with d2, vs once d1+d2 on the caller's "
+        "array), and a 3% malformed stream (dose list shorter than the stack -> must raise). Cross-call stream (25% of the dose_filter cases): a "
+        "second call in the same process on the SAME caller-owned array object / MRC path / dose-file path / dose ndarray with a DIFFERENT pixel "
+        "size and other doses, optionally after the harness legitimately rewrote the content (images rolled by one, dose file rewritten, dose "
+        "ndarray overwritten); every call is judged alike, and before/after every call the caller-owned stack array (or file bytes), dose "
+        "list/ndarray/file and frequency array are compared byte for byte; results of earlier calls are re-compared after later calls. "
+        "Judgement, per call and image, on floating-point results: the 2-D DFT (numpy) of the output is compared at EVERY coefficient with "
+        "gain * DFT(input): |Fo - G Fi| <= 1e-9 G |Fi| + 1e-13 max|Fi| (float64; 1e-4, 1e-5 for float32), and where |Fi| >= 1e-6 max|Fi| and "
+        "the gain is above the noise floor the LOG-gain is compared (so strongly attenuated coefficients count as much as weak ones); G from the "
+        "formula of the statement (kind spec) and from the Lean driver executing Model/C16 `doseFilter` at Float (kind corr); then mean, zero-dose "
+        "identity per pixel, power per coefficient, and over several images linearity / monotonicity / composition. "
+        "INTEGER STACKS: when the output is of integer dtype only the relation out = trunc(filter(x)) per pixel is judged (statement's gain: a "
+        "deviation from it is a spec finding; equality with visible truncation is the open known finding C16-K1); the clauses attenuation per "
+        "frequency, zero-frequency/mean, zero-dose identity, power, linearity, monotonicity and composition are judged on floating-point results "
+        "only (float stacks, dose_filter_single_image, and integer stacks whose result comes back as floats). "
+        "non-trivial = valid case with >= 2 images, >= 2 distinct doses, some gain < 0.99; distinct = distinct case content")
 ASSUMPTIONS = [
     "numpy.fft.fft2/ifft2 are linear and mutually inverse, fftshift/ifftshift rotate indices by floor(n/2)/ceil(n/2) (probed on every run: probes fft-roundtrip, fftshift-index)",
-    "a Hermitian-even real multiplier applied to the DFT of a real image gives a real image, so taking `.real` drops rounding noise only (probe even-multiplier-real; hypothesis `IsDFT.even_mult` of the image-level theorems)",
-    "IEEE float64 arithmetic of numpy ~ exact real arithmetic: the gain measured from the real code is compared with the model at Float with relative tolerance 1e-9 (+1e-12 absolute) on float64 stacks, 1e-4 on float32 stacks; the largest deviation seen is recorded in the evidence histograms",
+    "a Hermitian-even real multiplier applied to the DFT of a real image gives a real image, so taking `.real` drops rounding noise only (probe even-multiplier-real; hypothesis `IsDFT.even_mult` of the image-level theorems; `dft23_isDFT` shows the exact 2x3 DFT has it)",
+    "IEEE float64 arithmetic of numpy ~ exact real arithmetic: |Fo - G Fi| <= 1e-9 G|Fi| + 1e-13 max|Fi| on float64 stacks (1e-4, 1e-5 on float32 stacks); the largest deviation seen is recorded in the evidence histograms",
     "numpy `0.0 ** -1.665 = inf`, `exp(-d/inf) = 1`: the zero-frequency gain is exactly 1 (the driver evaluates the branch-free source expression at Float next to the model's case split and both are compared: clause qliteral-vs-model)",
     "Lean `Float.exp/pow/sqrt` (C libm) agree with numpy's within 1e-12 relative (checked on every case: model gain vs. the statement's formula evaluated in Python)",
+    "numpy casts float -> integer by truncation toward zero (probe int-cast-truncates; used only to recognise the open finding C16-K1)",
+    "the dose of image i when doses come from a file is what ioutils.total_dose_load documents: CorrectedDose of the rows not Removed (.csv), PriorRecordDose+ExposureDose or ExposureDose*(rank by DateTime+1) in tilt-angle order (.mdoc), the lines (.txt); the harness computes these itself from the content it wrote",
 ]
 TRUSTED = ["numpy.fft used by the harness to measure the gain (same library the code under test uses; its linearity/inversion is probed)",
-           "harness evaluation of the statement's formula (props/c16.py _spec_gain), independent of model and implementation"]
+           "harness evaluation of the statement's formula (props/c16.py _spec_gain), independent of model and implementation",
+           "harness MRC parser (props/c16.py parse_mrc; probed against mrcfile) and mrcfile to create input files"]
 LEVEL_TEXT = ("Lean 4 theorems about an executable polymorphic model of dose_filter / dose_filter_single_image, instantiated at the reals with "
               "Real.exp, Real.rpow, Real.sqrt: the multiplier on every raw DFT coefficient is exp(-d/(2(0.245 f^-1.665 + 2.81))) with f the physical "
               "frequency of that coefficient (fftshift index arithmetic proved for even and odd sizes), DC gain 1, gain(0)=1, gain(d1)gain(d2)=gain(d1+d2), "
-              "0<gain<=1, antitone in dose, Hermitian-even; and, for any Fourier service satisfying the stated DFT laws, the image-level consequences "
+              "0<gain<=1, antitone in dose, Hermitian-even; and, for any Fourier service satisfying the stated DFT laws (shown satisfiable by the exact 2x3 "
+              "DFT over the reals), the image-level consequences "
               "(spectrum multiplied, zero dose = identity, linear, power never increases, more dose attenuates more, d1 then d2 = d1+d2, DC and mean unchanged, "
-              "per-image dose pairing, short dose list rejected). Tied to the source by regenerated constants and expression skeletons and by a per-frequency "
+              "per-image dose pairing, short dose list rejected). Tied to the source by regenerated constants, signatures, expression skeletons and whole-body "
+              "dumps (insensitive to renaming of locals) and by a per-frequency "
               "differential run of the real functions against the driver executing the same definitions at Float")
 LEVEL_NOTE = ("trusted: Lean kernel; translator anchors; numpy.fft as the measuring instrument and as the Fourier service (its DFT laws are hypotheses of the "
               "image-level theorems, probed each run); float64 vs real arithmetic within the stated tolerances")
-TECHNIQUE = "Lean 4 proof over the reals (Mathlib exp/rpow/sqrt, index arithmetic by omega) + regenerated constants/expression skeletons + per-frequency differential correspondence"
+TECHNIQUE = "Lean 4 proof over the reals (Mathlib exp/rpow/sqrt, index arithmetic by omega) + regenerated constants/signatures/expression skeletons/body dumps + per-frequency differential correspondence incl. cross-call and file I/O streams"
 DESIGN_REF = "DESIGN.md section 4, C16"
 
 A_DOC, B_DOC, C_DOC = 0.245, -1.665, 2.81  # the statement's constants (NOT read from the source)
+DEFAULTS = dict(output_file=None, input_order="xyz", output_order="xyz")   # documented signature defaults (Props/C16 defaults_documented)
+NP_DT = {"f8": np.float64, "f4": np.float32, "i2": np.int16, "i1": np.int8}
+INT_LIM = {"i2": 8000, "i1": 40}
+FILE_SRC = ("txt", "csv", "csv_removed", "mdoc", "mdoc_dt")
 
 
 # ------------------------------------------------------------------ generators
@@ -231,6 +425,37 @@ def _image(rng, W, H):
     return dict(kind="const", offset=off if off != 0.0 else 3.0)
 
 
+def _mdoc_dt_doses(expo_bits, seed):
+    """expected per-image doses (tilt order) of an .mdoc without PriorRecordDose: ExposureDose * (rank by DateTime + 1)"""
+    n = len(expo_bits)
+    _, rank = _mdoc_perms(n, seed)
+    return [f2b(b2f(e) * (rank[i] + 1)) for i, e in enumerate(expo_bits)]
+
+
+def _mdoc_perms(n, seed):
+    """acq[j] = stack index (tilt order) of the j-th section of the file; rank[i] = DateTime rank of stack image i"""
+    r = _random.Random(seed)
+    acq = list(range(n)); r.shuffle(acq)
+    order = list(range(n)); r.shuffle(order)
+    rank = [0] * n
+    for k, i in enumerate(order):
+        rank[i] = k
+    return acq, rank
+
+
+def fix(case):
+    """re-establish the derived fields after a structural edit (shrinking): doses of an mdoc_dt case follow from its exposures"""
+    c = dict(case)
+    n = len(c["images"])
+    if c.get("dose_src") == "mdoc_dt" and not c.get("malformed"):
+        c["expo"] = list(c["expo"][:n]) + [f2b(1.0)] * max(0, n - len(c["expo"]))
+        c["doses"] = _mdoc_dt_doses(c["expo"], c.get("aux_seed", 0))
+    ag = c.get("again")
+    if ag:
+        ag = dict(ag); ag["doses"] = list(ag["doses"][:n]) + [f2b(5.0)] * max(0, n - len(ag["doses"])); c["again"] = ag
+    return c
+
+
 def generate(rng, tier, n):
     for t in range(n):
         W, H = _size(rng), _size(rng)
@@ -259,18 +484,58 @@ def generate(rng, tier, n):
                 doses = [min(hi, step * (i + 1)) for i in range(N)]
                 if rng.random() < 0.7:
                     rng.shuffle(doses)
-        case = dict(W=W, H=H, px=f2b(_px(rng)), doses=[f2b(d) for d in doses], images=images, mode=mode, api=api,
-                    dtype="f8" if rng.random() < 0.8 else "f4",
-                    dose_src=rng.choice(["list", "list", "ndarray", "ndarray", "ndarray32", "txt"]),
-                    order_in=rng.choice(["xyz", "xyz", "zyx"]), order_out=rng.choice(["xyz", "xyz", "zyx"]))
+            if N >= 2 and mode == "plain" and rng.random() < 0.15:  # an exact zero directly before an exposed image
+                j = rng.randrange(N - 1)
+                doses[j] = 0.0
+                if doses[j + 1] == 0.0:
+                    doses[j + 1] = rng.randint(1, 480) / 8.0
+        k = rng.random()
+        dtype = "f8" if k < 0.72 else ("f4" if k < 0.90 else ("i2" if k < 0.96 else "i1"))
+        if dtype in ("i2", "i1") and (api == "single" or mode == "compose"):
+            dtype = "f8"
+        case = dict(W=W, H=H, px=f2b(_px(rng)), doses=[f2b(d) for d in doses], images=images, mode=mode, api=api, dtype=dtype,
+                    dose_src=rng.choice(["list"] * 5 + ["ndarray"] * 4 + ["ndarray32"] * 2 + ["txt"] * 2 + ["csv", "csv", "csv_removed"] + ["mdoc"] * 3 + ["mdoc_dt"] * 2),
+                    order_in=rng.choice(["xyz", "xyz", "zyx"]), order_out=rng.choice(["xyz", "xyz", "zyx"]),
+                    aux_seed=rng.randrange(1 << 20))
         if mode == "compose":
             case["doses2"] = [f2b(_dose(rng, 150.0)) for _ in range(N)]
         if api == "single":
             case["dose_src"] = "list"
-        if mode == "plain" and api == "stack" and N >= 2 and rng.random() < 0.12:
-            case["doses"] = case["doses"][: rng.randint(0, N - 1)]
-            case["malformed"] = "short-doses"
-            case["dose_src"] = rng.choice(["list", "ndarray"])
+        else:
+            if case["dose_src"] == "mdoc_dt" and mode in ("linear", "compose"):
+                case["dose_src"] = "mdoc"
+            if case["dose_src"] == "mdoc_dt":
+                case["expo"] = [f2b(rng.randint(0 if rng.random() < 0.1 else 1, max(1, int(300 * 8 / N))) / 8.0) for _ in range(N)]
+                case["doses"] = _mdoc_dt_doses(case["expo"], case["aux_seed"])
+            omit = [kw for kw in ("output_file", "input_order", "output_order") if rng.random() < 0.3]
+            if "input_order" in omit:
+                case["order_in"] = DEFAULTS["input_order"]
+            if "output_order" in omit:
+                case["order_out"] = DEFAULTS["output_order"]
+            if "output_file" not in omit and rng.random() < 0.15:
+                case["out_file"] = True
+            case["omit"] = omit
+            if N >= 2 and rng.random() < 0.13:      # the stack is handed over as the path of an MRC file (float32 / int16 / int8 modes)
+                case["stack_src"] = "file"
+                if case["dtype"] == "f8":
+                    case["dtype"] = dtype = "f4"
+            if mode == "plain" and N >= 2 and rng.random() < 0.12:
+                case["doses"] = case["doses"][: rng.randint(0, N - 1)]
+                case["malformed"] = "short-doses"
+                case["dose_src"] = rng.choice(["list", "ndarray", "txt", "csv"]) if case["doses"] else rng.choice(["list", "ndarray"])
+                case.pop("expo", None)
+                if dtype in ("i2", "i1"):
+                    case["dtype"] = "f8"; case.pop("stack_src", None)
+            elif case["dose_src"] not in ("mdoc", "mdoc_dt") and rng.random() < 0.07:
+                case["surplus"] = [f2b(_dose(rng)) for _ in range(rng.randint(1, 3))]
+            if not case.get("malformed") and mode != "compose" and rng.random() < 0.25:
+                px2 = _px(rng)
+                while abs(px2 - b2f(case["px"])) < 0.05 * b2f(case["px"]):
+                    px2 = _px(rng)
+                src1 = case["dose_src"]
+                src2 = ("mdoc" if src1 == "mdoc_dt" else src1) if rng.random() < 0.7 else rng.choice(["list", "ndarray"])
+                case["again"] = dict(px=f2b(px2), doses=[f2b(_dose(rng)) for _ in range(N)], mutate=rng.random() < 0.35, dose_src=src2,
+                                     same_dose_obj=rng.random() < 0.6)
         yield case
 
 
@@ -278,6 +543,10 @@ def _shrunk_image(im):
     if im["kind"] in ("lincomb", "copy"):
         return im
     return dict(kind="delta", y=0, x=0, amp=1.0, offset=0.0)
+
+
+def _drop(case, *keys):
+    return {k: v for k, v in case.items() if k not in keys}
 
 
 def shrink(case):
@@ -288,26 +557,53 @@ def shrink(case):
             yield dict(case, images=case["images"][:2], doses=case["doses"][:1])
         if case["W"] > 4 or case["H"] > 4:
             yield dict(case, W=4, H=4, images=[_shrunk_image(i) for i in case["images"]])
+        for k, v in (("dose_src", "list"), ("order_in", "xyz"), ("order_out", "xyz")):
+            if case.get(k) != v:
+                yield dict(case, **{k: v})
         return
+    # fewer features
+    if case.get("again"):
+        yield _drop(case, "again")
+        ag = case["again"]
+        if ag.get("mutate"):
+            yield dict(case, again=dict(ag, mutate=False))
+        if ag.get("dose_src") != "list":
+            yield dict(case, again=dict(ag, dose_src="list"))
+    for k in ("surplus", "out_file", "stack_src"):
+        if case.get(k):
+            yield _drop(case, k)
+    if case.get("omit"):
+        yield dict(case, omit=[])
+    if case.get("dose_src") not in ("list", None) and case["api"] == "stack":
+        yield _drop(dict(case, dose_src="list"), "expo")
     # fewer images
-    if mode in ("plain", "compose") and N > 1:
+    if mode in ("plain", "compose") and N > 1 and not (case.get("stack_src") == "file" and N == 2):
         for i in range(N):
+            if case.get("stack_src") == "file":
+                break
             c = dict(case, images=[case["images"][i]], doses=[case["doses"][i]])
             if "doses2" in case:
                 c["doses2"] = [case["doses2"][i]]
-            yield c
+            if "expo" in case:
+                c["expo"] = [case["expo"][i]]
+            if case.get("again"):
+                c["again"] = dict(case["again"], doses=[case["again"]["doses"][i]])
+            yield fix(c)
         if N > 2:
-            h = N // 2
+            h = max(2, N // 2)
             c = dict(case, images=case["images"][:h], doses=case["doses"][:h])
             if "doses2" in case:
                 c["doses2"] = case["doses2"][:h]
-            yield c
+            yield fix(c)
     if mode == "monotone" and N > 2:
         for i in range(1, N):
-            yield dict(case, images=case["images"][:i] + case["images"][i + 1:], doses=case["doses"][:i] + case["doses"][i + 1:])
+            c = dict(case, images=case["images"][:i] + case["images"][i + 1:], doses=case["doses"][:i] + case["doses"][i + 1:])
+            if "expo" in case:
+                c["expo"] = case["expo"][:i] + case["expo"][i + 1:]
+            yield fix(c)
     # plain settings
-    for k, v in (("dtype", "f8"), ("dose_src", "list"), ("order_in", "xyz"), ("order_out", "xyz")):
-        if case[k] != v and not (case["api"] == "single" and k == "dose_src"):
+    for k, v in (("dtype", "f8"), ("order_in", "xyz"), ("order_out", "xyz")):
+        if case[k] != v and not (k == "dtype" and case.get("stack_src") == "file"):
             yield dict(case, **{k: v})
     if mode != "plain" and mode != "linear" and N == 1:
         yield dict(case, mode="plain")
@@ -331,15 +627,18 @@ def shrink(case):
     if b2f(case["px"]) != 1.0:
         yield dict(case, px=f2b(1.0))
         yield dict(case, px=f2b(float(round(b2f(case["px"])) or 1)))
-    ds = [b2f(d) for d in case["doses"]]
-    for cand in ([float(round(d)) for d in ds], [10.0 * (i + 1) for i in range(len(ds))] if mode != "linear" else [10.0] * len(ds)):
-        if cand != ds:
-            yield dict(case, doses=[f2b(d) for d in cand])
+    if case.get("dose_src") != "mdoc_dt":
+        ds = [b2f(d) for d in case["doses"]]
+        for cand in ([float(round(d)) for d in ds], [10.0 * (i + 1) for i in range(len(ds))] if mode != "linear" else [10.0] * len(ds)):
+            if cand != ds:
+                yield dict(case, doses=[f2b(d) for d in cand])
 
 
 # ------------------------------------------------------------------ building inputs
 def build_images(case):
+    """the pixel values the stack really holds (float64 copies), image by image"""
     W, H = case["W"], case["H"]
+    dt = case["dtype"]
     yy, xx = np.meshgrid(np.arange(H), np.arange(W), indexing="ij")
     out = []
     for im in case["images"]:
@@ -360,30 +659,91 @@ def build_images(case):
         else:
             raise ValueError(k)
         a = np.asarray(a, dtype=np.float64)
-        if case["dtype"] == "f4":
+        if dt == "f4":
             a = a.astype(np.float32).astype(np.float64)  # the values the float32 stack really holds
+        elif dt in INT_LIM:
+            if k in ("random", "wave", "delta", "const"):
+                a = a * 4.0          # more distinct integer levels
+            a = np.clip(np.rint(a), -INT_LIM[dt], INT_LIM[dt])
         out.append(a)
     return out
 
 
-def _stack(case, imgs):
-    arr = np.stack(imgs, axis=0).astype(np.float32 if case["dtype"] == "f4" else np.float64)  # (n, H, W)
-    return arr.transpose(2, 1, 0).copy() if case["order_in"] == "xyz" else arr
+def _rolled(imgs):
+    """content after the harness's legitimate in-place edit between two calls: image i becomes the old image i-1"""
+    return [imgs[-1]] + imgs[:-1] if imgs else imgs
 
 
-def _doses_arg(case, doses, td):
-    src = case["dose_src"]
+def _stack_array(case, imgs, order):
+    arr = np.stack(imgs, axis=0).astype(NP_DT[case["dtype"]])  # (n, H, W)
+    return arr.transpose(2, 1, 0).copy() if order == "xyz" else arr
+
+
+def _mdoc_text(doses, kind, seed, expo_bits=None):
+    """SerialEM-style .mdoc whose sections stand in ACQUISITION order; tilt angles ascend with the stack index"""
+    n = len(doses)
+    acq, rank = _mdoc_perms(n, seed)
+    r = _random.Random(seed + 7)
+    lines = ["PixelSpacing = 1.35", "ImageFile = ts.st", "DataMode = 1", "", "[T = SerialEM: written by the C16 harness]", ""]
+    for j, i in enumerate(acq):
+        ang = 3.0 * i - 3.0 * (n // 2)
+        lines.append(f"[ZValue = {j}]")
+        lines.append(f"TiltAngle = {ang!r}")
+        if kind == "mdoc":
+            e = r.randint(0, int(doses[i] * 8)) / 8.0
+            lines.append(f"ExposureDose = {e!r}")
+            lines.append(f"PriorRecordDose = {doses[i] - e!r}")
+            minute = j
+        else:
+            lines.append(f"ExposureDose = {b2f(expo_bits[i])!r}")
+            minute = rank[i]
+        lines.append(f"DateTime = 2024-02-21 12:{minute:02d}:00")
+        lines.append("")
+    return "\n".join(lines) + "\n"
+
+
+def _csv_text(doses, removed, seed):
+    r = _random.Random(seed + 3)
+    rows = [(d, False) for d in doses]
+    if removed:
+        for _ in range(r.randint(1, 3)):
+            rows.insert(r.randint(0, len(rows)), (r.randint(0, 2400) / 8.0, True))
+    head = ",ZValue,CorrectedDose" + (",Removed" if removed else "")
+    return head + "\n" + "".join(f"{i},{i},{d!r}" + (f",{rm}" if removed else "") + "\n" for i, (d, rm) in enumerate(rows))
+
+
+def _doses_arg(src, doses, td, seed, expo=None, reuse=None):
+    """the object handed to dose_filter as total_dose; `reuse`: ndarray of an earlier call to overwrite in place"""
     if src == "list":
         return list(doses)
-    if src == "ndarray":
-        return np.array(doses, dtype=np.float64)
-    if src == "ndarray32":
-        return np.array(doses, dtype=np.float32)
-    p = os.path.join(td, "dose.txt")
-    with open(p, "w") as f:
-        for d in doses:
-            f.write(repr(float(d)) + "\n")
+    if src in ("ndarray", "ndarray32"):
+        dt = np.float64 if src == "ndarray" else np.float32
+        if reuse is not None and isinstance(reuse, np.ndarray) and reuse.dtype == dt and reuse.shape == (len(doses),):
+            reuse[...] = doses          # the caller legitimately re-uses its own array
+            return reuse
+        return np.array(doses, dtype=dt)
+    if src == "txt":
+        p, text = os.path.join(td, "dose.txt"), "".join(repr(float(d)) + "\n" for d in doses)
+    elif src in ("csv", "csv_removed"):
+        p, text = os.path.join(td, "dose.csv"), _csv_text(doses, src == "csv_removed", seed)
+    elif src in ("mdoc", "mdoc_dt"):
+        p, text = os.path.join(td, "dose.mdoc"), _mdoc_text(doses, src, seed, expo)
+    else:
+        raise ValueError(src)
+    with open(p, "w") as f:     # the same path is rewritten when a second call uses the same kind of file
+        f.write(text)
     return p
+
+
+def _snap(obj):
+    """byte-exact snapshot of a caller-owned argument"""
+    if isinstance(obj, np.ndarray):
+        return ("nd", str(obj.dtype), obj.shape, obj.tobytes())
+    if isinstance(obj, str):
+        return ("file", open(obj, "rb").read())
+    if isinstance(obj, list):
+        return ("list", [repr(x) for x in obj])
+    return ("other", repr(obj))
 
 
 def _enc(arr_nhw):
@@ -395,6 +755,54 @@ def _dec(o):
     return np.frombuffer(bytes.fromhex(o["hex"]), dtype=np.float64).reshape(o["shape"])
 
 
+def _describe(out):
+    """dtype / python type of what the library returned, and its values as float64 where that is possible (G3)"""
+    info = dict(type=type(out).__name__)
+    try:
+        arr = out if isinstance(out, np.ndarray) else np.asarray(out)
+    except Exception as e:
+        info.update(dtype="?", shape=[], unconvertible=f"{type(e).__name__}")
+        return None, info
+    info.update(dtype=str(arr.dtype), kind=arr.dtype.kind, shape=list(arr.shape))
+    if arr.dtype.kind == "c":
+        info["imag_max"] = float(np.max(np.abs(arr.imag))) if arr.size else 0.0
+        return np.asarray(arr.real, dtype=np.float64), info
+    if arr.dtype.kind not in "fiub":
+        info["unconvertible"] = "non-numeric dtype"
+        return None, info
+    return np.asarray(arr, dtype=np.float64), info
+
+
+# independent MRC reader (header + payload; modes 0 int8, 1 int16, 2 float32, 6 uint16)
+MRC_MODES = {0: "i1", 1: "<i2", 2: "<f4", 6: "<u2"}
+
+
+def parse_mrc(path):
+    raw = open(path, "rb").read()
+    if len(raw) < 1024:
+        return dict(ok=False, why=f"file of {len(raw)} bytes has no 1024-byte header")
+    nx, ny, nz, mode = struct.unpack("<4i", raw[0:16])
+    mapc, mapr, maps = struct.unpack("<3i", raw[64:76])
+    nsymbt = struct.unpack("<i", raw[92:96])[0]
+    if mode not in MRC_MODES:
+        return dict(ok=False, why=f"mode {mode}", dims=[nx, ny, nz], mode=mode)
+    dt = np.dtype(MRC_MODES[mode])
+    payload = raw[1024 + nsymbt:]
+    if len(payload) != nx * ny * nz * dt.itemsize or (mapc, mapr, maps) != (1, 2, 3) or raw[212:213] != b"\x44":
+        return dict(ok=False, why="payload size / axis order / machine stamp", dims=[nx, ny, nz], mode=mode)
+    data = np.frombuffer(payload, dtype=dt).reshape(nz, ny, nx)   # x fastest
+    return dict(ok=True, dims=[nx, ny, nz], mode=mode, data=data)
+
+
+def _write_mrc(path, nhw, dtype):
+    import mrcfile
+    with mrcfile.new(path, overwrite=True) as m:
+        m.set_data(np.ascontiguousarray(np.asarray(nhw).astype(NP_DT[dtype])))
+    p = parse_mrc(path)
+    if not p["ok"] or not np.array_equal(p["data"].astype(np.float64), np.asarray(nhw, dtype=np.float64)):
+        raise RuntimeError("harness could not write the MRC input file")   # no cryocat frame -> harness-or-library-raised
+
+
 def harness_freq_array(W, H, px):
     """|frequency| in cycles per Angstrom of every position of the fftshifted spectrum (documented convention, numpy fftfreq)"""
     fx = np.fft.fftshift(np.fft.fftfreq(W, d=px))
@@ -402,15 +810,63 @@ def harness_freq_array(W, H, px):
     return np.sqrt(fx[None, :] ** 2 + fy[:, None] ** 2)
 
 
-def _call_stack(ts_mod, case, stack, doses, td):
+def _nhw(out, order):
+    return out.transpose(2, 1, 0) if (order == "xyz" and out is not None and out.ndim == 3) else out
+
+
+def _call_stack(ts_mod, case, stack_arg, px, dose_arg, order_in, order_out, out_path):
+    """one call of dose_filter; keywords listed in case['omit'] are not passed (library defaults apply).
+    returns (raw returned object, observation dict)"""
     import io, contextlib
+    omit = case.get("omit") or []
+    kw = {}
+    if "output_file" not in omit:
+        kw["output_file"] = out_path
+    if "input_order" not in omit or order_in != DEFAULTS["input_order"]:     # a keyword is only left out where the documented default is meant
+        kw["input_order"] = order_in
+    if "output_order" not in omit or order_out != DEFAULTS["output_order"]:
+        kw["output_order"] = order_out
+    s_stack, s_dose = _snap(stack_arg), _snap(dose_arg)
+    if out_path and os.path.exists(out_path):
+        os.remove(out_path)
     with contextlib.redirect_stdout(io.StringIO()):
-        out = ts_mod.dose_filter(stack, b2f(case["px"]), _doses_arg(case, doses, td), output_file=None,
-                                 input_order=case["order_in"], output_order=case["order_out"])
-    out = np.asarray(out)
-    info = dict(dtype=str(out.dtype), shape=list(out.shape))
-    nhw = out.transpose(2, 1, 0) if case["order_out"] == "xyz" else out
-    return nhw, info
+        out = ts_mod.dose_filter(stack_arg, px, dose_arg, **kw)
+    vals, info = _describe(out)
+    ob = dict(info=info, input_untouched=bool(_snap(stack_arg) == s_stack), doses_untouched=bool(_snap(dose_arg) == s_dose))
+    if isinstance(out, np.ndarray) and isinstance(stack_arg, np.ndarray):
+        ob["aliases_input"] = bool(np.shares_memory(out, stack_arg))
+    if vals is not None:
+        v = _nhw(vals, order_out)
+        ob["out"] = _enc(v)
+        ob["info"]["shape_nhw"] = list(v.shape)
+    if out_path:
+        if os.path.exists(out_path):
+            p = parse_mrc(out_path)
+            ob["file"] = dict(ok=p["ok"], why=p.get("why", ""), dims=p.get("dims"), mode=p.get("mode"))
+            if p["ok"]:
+                ob["file"]["out"] = _enc(p["data"])
+        else:
+            ob["file"] = dict(ok=False, why="file not written")
+    return out, ob
+
+
+def _raised_in_cryocat(e):
+    return any("/cryocat/" in fr.filename for fr in traceback.extract_tb(e.__traceback__))
+
+
+def plan(case):
+    """the library calls of a case in the order they are made: list of dict(tag, px (bits), doses (bits, as passed incl. surplus), src)"""
+    d1 = list(case["doses"]) + list(case.get("surplus") or [])
+    calls = [dict(tag="first", px=case["px"], doses=d1, src=case["dose_src"])]
+    if case.get("malformed") or case["api"] == "single":
+        return calls
+    if case["mode"] == "compose":
+        calls.append(dict(tag="second", px=case["px"], doses=list(case["doses2"]), src=case["dose_src"]))
+        calls.append(dict(tag="once", px=case["px"], doses=[f2b(b2f(a) + b2f(b)) for a, b in zip(case["doses"], case["doses2"])], src=case["dose_src"]))
+    if case.get("again"):
+        ag = case["again"]
+        calls.append(dict(tag="again", px=ag["px"], doses=list(ag["doses"]), src=ag["dose_src"]))
+    return calls
 
 
 def run_impl(case):
@@ -418,56 +874,83 @@ def run_impl(case):
     from cryocat import tiltstack
     W, H = case["W"], case["H"]
     imgs = build_images(case)
-    doses = [b2f(d) for d in case["doses"]]
+    seed = case.get("aux_seed", 0)
+    order_in, order_out = case["order_in"], case["order_out"]
     with warnings.catch_warnings(), tempfile.TemporaryDirectory(prefix="c16_") as td:
         warnings.simplefilter("ignore")
         if case["api"] == "single":
             fa = harness_freq_array(W, H, b2f(case["px"]))
-            outs = []
-            for im, d in zip(imgs, doses):
-                arr = im.astype(np.float32) if case["dtype"] == "f4" else im.copy()
-                keep = arr.copy()
-                o = np.asarray(tiltstack.dose_filter_single_image(arr, d, fa))
-                if not np.array_equal(arr, keep):
-                    return dict(error="dose_filter_single_image modified its input", where="")
-                outs.append(o)
-            return dict(out=_enc(np.stack(outs, 0)), info=dict(dtype=str(outs[0].dtype), shape=list(outs[0].shape)), freq=_enc(fa))
-        stack = _stack(case, imgs)
-        keep = stack.copy()
+            fa_snap = _snap(fa)
+            outs, infos, untouched = [], [], True
+            for im, d in zip(imgs, [b2f(d) for d in case["doses"]]):
+                arr = im.astype(NP_DT[case["dtype"]])
+                keep = _snap(arr)
+                vals, info = _describe(tiltstack.dose_filter_single_image(arr, d, fa))
+                untouched = untouched and _snap(arr) == keep and _snap(fa) == fa_snap   # the same frequency array serves every image
+                infos.append(info)
+                if vals is None or list(vals.shape) != [H, W]:
+                    return dict(calls=[dict(tag="first", info=info, input_untouched=bool(untouched), doses_untouched=True)], freq=_enc(fa))
+                outs.append(vals)
+            info = dict(infos[0], shape_nhw=[len(outs), H, W])
+            if any(i.get("dtype") != info.get("dtype") for i in infos):
+                info["dtype"] = "mixed:" + ",".join(sorted({i.get("dtype", "?") for i in infos}))
+            if any("imag_max" in i for i in infos):
+                info["imag_max"] = max(i.get("imag_max", 0.0) for i in infos)
+            return dict(calls=[dict(tag="first", out=_enc(np.stack(outs, 0)), info=info, input_untouched=bool(untouched), doses_untouched=True)], freq=_enc(fa))
+        pl = plan(case)
+        out_path = os.path.join(td, "filtered.mrc") if case.get("out_file") else None
+        if case.get("stack_src") == "file":
+            stack_arg = os.path.join(td, "stack.mrc")
+            _write_mrc(stack_arg, np.stack(imgs, 0), case["dtype"])
+        else:
+            stack_arg = _stack_array(case, imgs, order_in)
+        first = pl[0]
+        dose_arg = _doses_arg(first["src"], [b2f(d) for d in first["doses"]], td, seed, case.get("expo"))
         if case.get("malformed"):
             try:
-                _call_stack(tiltstack, case, stack, doses, td)
+                _call_stack(tiltstack, case, stack_arg, b2f(case["px"]), dose_arg, order_in, order_out, out_path)
             except IndexError as e:
+                if not _raised_in_cryocat(e):
+                    raise
                 return dict(reject="IndexError")
             return dict(accepted=True)
-        nhw, info = _call_stack(tiltstack, case, stack, doses, td)
-        obs = dict(out=_enc(nhw), info=info, input_untouched=bool(np.array_equal(stack, keep)))
-        if case["mode"] == "compose":
-            d2 = [b2f(d) for d in case["doses2"]]
-            c2 = dict(case, order_in=case["order_out"])
-            second, _ = _call_stack(tiltstack, c2, np.asarray(_raw_out(nhw, case)), d2, td)
-            once, _ = _call_stack(tiltstack, case, stack, [a + b for a, b in zip(doses, d2)], td)
-            obs["second"] = _enc(second)
-            obs["once"] = _enc(once)
+        raw1, ob1 = _call_stack(tiltstack, case, stack_arg, b2f(first["px"]), dose_arg, order_in, order_out, out_path)
+        ob1["tag"] = "first"
+        obs = dict(calls=[ob1])
+        snap1 = _snap(raw1) if isinstance(raw1, np.ndarray) else None
+        for c in pl[1:]:
+            doses = [b2f(d) for d in c["doses"]]
+            if c["tag"] == "second":     # the array the library returned is filtered again, as it came back
+                if not isinstance(raw1, np.ndarray):
+                    break
+                darg = _doses_arg(c["src"], doses, td, seed + 1)
+                _, ob = _call_stack(tiltstack, case, raw1, b2f(c["px"]), darg, order_out, order_out, out_path)
+            elif c["tag"] == "once":
+                darg = _doses_arg(c["src"], doses, td, seed + 2)
+                _, ob = _call_stack(tiltstack, case, stack_arg, b2f(c["px"]), darg, order_in, order_out, out_path)
+            else:                        # "again": same caller-owned objects / paths, other pixel size and doses
+                ag = case["again"]
+                if ag.get("mutate"):
+                    new = _rolled(imgs)
+                    if isinstance(stack_arg, np.ndarray):
+                        stack_arg[...] = _stack_array(case, new, order_in)     # in place: same object, new content
+                    else:
+                        _write_mrc(stack_arg, np.stack(new, 0), case["dtype"])  # same path, new content
+                darg = _doses_arg(c["src"], doses, td, seed + 1, reuse=dose_arg if ag.get("same_dose_obj") else None)
+                _, ob = _call_stack(tiltstack, case, stack_arg, b2f(c["px"]), darg, order_in, order_out, out_path)
+            ob["tag"] = c["tag"]
+            obs["calls"].append(ob)
+        if snap1 is not None and len(pl) > 1:
+            obs["first_result_intact"] = bool(_snap(raw1) == snap1)
         return obs
-
-
-def _raw_out(nhw, case):
-    """the array as dose_filter returned it (so that it can be fed back in with input_order = order_out)"""
-    return nhw.transpose(2, 1, 0) if case["order_out"] == "xyz" else nhw
 
 
 # ------------------------------------------------------------------ model requests
 def requests(case, obs):
-    W, H = case["W"], case["H"]
+    W, H, n = case["W"], case["H"], len(case["images"])
+    reqs = [dict(op="stack", W=W, H=H, px=c["px"], n=n, doses=c["doses"]) for c in plan(case)]
     if case["api"] == "single":
-        return [dict(op="stack", W=W, H=H, px=case["px"], n=len(case["images"]), doses=case["doses"]),
-                dict(op="arrays", W=W, H=H, px=case["px"], dose=case["doses"][0])]
-    reqs = [dict(op="stack", W=W, H=H, px=case["px"], n=len(case["images"]), doses=case["doses"])]
-    if case["mode"] == "compose" and not case.get("malformed"):
-        reqs.append(dict(op="stack", W=W, H=H, px=case["px"], n=len(case["images"]), doses=case["doses2"]))
-        reqs.append(dict(op="stack", W=W, H=H, px=case["px"], n=len(case["images"]),
-                         doses=[f2b(b2f(a) + b2f(b)) for a, b in zip(case["doses"], case["doses2"])]))
+        reqs.append(dict(op="arrays", W=W, H=H, px=case["px"], dose=case["doses"][0]))
     return reqs
 
 
@@ -483,8 +966,8 @@ def _spec_gain(W, H, px, dose):
     return g
 
 
-def _tols(case):
-    return (1e-9, 1e-12, 1e-9) if case["dtype"] == "f8" else (1e-4, 1e-4, 1e-5)
+# (relative tolerance on the gain, noise floor relative to max|Fi|, pixel tolerance relative to max|x|)
+TOLS = {"f8": (1e-9, 1e-13, 1e-11), "f4": (1e-4, 1e-5, 1e-5)}
 
 
 def _table(t):
@@ -499,141 +982,285 @@ def _where(dev, W, H):
 
 
 def _cmp_gain(Fi, Fo, G, tols):
-    """largest violation of `Fo = G * Fi` — returns (excess>0?, description data)"""
-    rel, absg, allabs = tols
+    """`Fo = G * Fi` at every coefficient: |Fo - G Fi| <= rel*G*|Fi| + floor*max|Fi|; where the input coefficient is strong
+    (|Fi| >= 1e-6 max|Fi|) and the expected output is above the noise floor the LOG-gain is compared as well.
+    returns (excess map (>0 = violated), dict of statistics)"""
+    rel, floor, _ = tols
+    aFi = np.abs(Fi)
+    scale = float(aFi.max()) or 1.0
+    err = np.abs(Fo - G * Fi)
+    bound = rel * G * aFi + floor * scale
+    exc = err / bound - 1.0
+    strong = (aFi >= 1e-6 * scale) & (G * aFi >= 1e3 * floor * scale)
+    st = dict(max_abs=float(err.max()) / scale, dlog=0.0, gmin_checked=1.0)
+    if strong.any():
+        ratio = (Fo[strong] / Fi[strong])
+        lb = np.log1p(rel + floor * scale / (G[strong] * aFi[strong]))
+        with np.errstate(divide="ignore", invalid="ignore"):
+            dlog = np.where(ratio.real > 0, np.abs(np.log(np.abs(ratio)) - np.log(G[strong])), np.inf)
+        e2 = np.zeros_like(exc)
+        e2[strong] = dlog / (2.0 * lb) - 1.0
+        exc = np.maximum(exc, e2)
+        st["dlog"] = float(np.max(dlog))
+        st["gmin_checked"] = float(G[strong].min())
+    return exc, st
+
+
+def _judge_float(tag, i, img, res, G_spec, G_model, dose, px, W, H, tols, out, st_acc):
+    """all single-image clauses on a floating-point result"""
+    rel, floor, pix = tols
+    Fi, Fo = np.fft.fft2(img), np.fft.fft2(res)
+    amax = max(1.0, float(np.max(np.abs(img))))
+    # (a) the statement itself, at every frequency
+    exc, st = _cmp_gain(Fi, Fo, G_spec, tols)
+    if (exc > 0).any():
+        v, u, kx, ky = _where(exc, W, H)
+        f = math.hypot(kx / (W * px), ky / (H * px))
+        clause = "zero-frequency-changed" if (kx, ky) == (0, 0) else ("zero-dose-not-identity" if dose == 0 else "attenuation")
+        out.append(dict(kind="spec", clause=clause,
+                        detail=f"call {tag} image {i} dose {dose} px {px} size {W}x{H}: DFT coefficient [v={v},u={u}] (kx={kx},ky={ky}, f={f:.6g}/A) "
+                               f"is multiplied by {Fo[v,u]/Fi[v,u] if abs(Fi[v,u])>0 else 'n/a'}; the property demands {G_spec[v,u]:.12g}"))
+    # (b) mean / zero frequency
+    if abs(float(res.mean()) - float(img.mean())) > pix * amax:
+        out.append(dict(kind="spec", clause="mean-changed", detail=f"call {tag} image {i}: mean {img.mean()!r} -> {res.mean()!r}"))
+    # (c) zero dose = identity, pixel-wise
+    if dose == 0 and float(np.max(np.abs(res - img))) > pix * amax:
+        out.append(dict(kind="spec", clause="zero-dose-not-identity", detail=f"call {tag} image {i}: max pixel change {np.max(np.abs(res-img))!r}"))
+    # (d) power never increases
     scale = float(np.max(np.abs(Fi))) or 1.0
-    dev_all = np.abs(Fo - G * Fi) / scale
-    strong = np.abs(Fi) >= 0.1 * scale
-    meas = np.zeros_like(G)
-    meas[strong] = (Fo[strong] / Fi[strong]).real
-    dev_strong = np.zeros_like(G)
-    dev_strong[strong] = np.abs(Fo[strong] / Fi[strong] - G[strong]) - (rel * np.abs(G[strong]) + absg)
-    bad_all = dev_all > allabs
-    bad_strong = dev_strong > 0
-    reldev = np.zeros_like(G)
-    m = strong & (G > 1e-3)
-    reldev[m] = np.abs(Fo[m] / Fi[m] - G[m]) / G[m]
-    return bad_all, bad_strong, dev_all, meas, float(reldev.max()) if m.any() else 0.0, float(dev_all.max())
+    pex = np.abs(Fo) - np.abs(Fi) * (1 + rel) - floor * scale
+    if (pex > 0).any():
+        v, u, kx, ky = _where(pex, W, H)
+        out.append(dict(kind="spec", clause="power-increased", detail=f"call {tag} image {i}: |DFT[{v},{u}]| {abs(Fi[v,u])!r} -> {abs(Fo[v,u])!r}"))
+    # (e) correspondence with the Lean model (same defs as the theorems), at every frequency
+    if G_model is not None:
+        exc2, _ = _cmp_gain(Fi, Fo, G_model, tols)
+        if (exc2 > 0).any():
+            v, u, kx, ky = _where(exc2, W, H)
+            out.append(dict(kind="corr", clause="gain-vs-model", detail=f"call {tag} image {i} dose {dose}: coefficient [v={v},u={u}] measured gain "
+                            f"{Fo[v,u]/Fi[v,u] if abs(Fi[v,u])>0 else 'n/a'}, model {G_model[v,u]!r}"))
+    for k in ("max_abs", "dlog"):
+        st_acc[k] = max(st_acc.get(k, 0.0), st[k])
+    st_acc["gmin_checked"] = min(st_acc.get("gmin_checked", 1.0), st["gmin_checked"])
+    return Fi, Fo
+
+
+def _judge_int(tag, i, img, res, G_spec, G_model, dose, out, flags):
+    """integer stack, integer result: out = trunc(filter(x)) per pixel (open finding C16-K1), anything else is a violation"""
+    tol = 1e-9 * max(1.0, float(np.max(np.abs(img))))
+    F = np.fft.fft2(img)
+
+    def within(G):
+        f = np.fft.ifft2(G * F).real
+        lo, hi = np.trunc(f - tol), np.trunc(f + tol)
+        return (res >= np.minimum(lo, hi)) & (res <= np.maximum(lo, hi)), f
+
+    ok, f = within(G_spec)
+    if not ok.all():
+        y, x = np.unravel_index(int(np.argmax(np.where(ok, 0.0, np.abs(res - f)))), ok.shape)
+        out.append(dict(kind="spec", clause="int-stack-not-truncated-filter",
+                        detail=f"call {tag} image {i} dose {dose}: pixel [y={y},x={x}] is {res[y,x]!r}; the filtered value is {f[y,x]!r} (integer stack: trunc expected)"))
+    elif float(np.max(np.abs(res - f))) > tol:
+        flags.setdefault("k1", (tag, i, float(np.max(np.abs(res - f))), float(res.mean() - img.mean())))
+    if G_model is not None and not within(G_model)[0].all():
+        out.append(dict(kind="corr", clause="gain-vs-model", detail=f"call {tag} image {i}: integer result is not trunc(model filter)"))
+
+
+def _call_inputs(case, obs):
+    """per call of plan(case): (images the call was given, expected per-image doses, pixel size)"""
+    imgs = build_images(case)
+    n = len(imgs)
+    res = {}
+    for c in plan(case):
+        doses = [b2f(d) for d in c["doses"]][:n]
+        if c["tag"] in ("first", "once"):
+            res[c["tag"]] = (imgs, doses, b2f(c["px"]))
+        elif c["tag"] == "second":
+            first = next((o for o in obs.get("calls", []) if o.get("tag") == "first"), None)
+            if first and "out" in first:
+                r1 = _dec(first["out"])
+                res["second"] = ([r1[i] for i in range(r1.shape[0])], doses, b2f(c["px"]))
+        elif c["tag"] == "again":
+            res["again"] = (_rolled(imgs) if case["again"].get("mutate") else imgs, doses, b2f(c["px"]))
+    return res
 
 
 def judge(case, obs, resps):
     out = []
     W, H = case["W"], case["H"]
-    px = b2f(case["px"])
-    doses = [b2f(d) for d in case["doses"]]
     N = len(case["images"])
-    model = resps[0]
+    model = resps[0] if resps else {}
+    if "error" in obs and not obs.get("where"):
+        # G4: no frame of the traceback lies inside cryocat -> not a statement about the code under test
+        return [dict(kind="corr", clause="harness-or-library-raised", detail=obs["error"])]
     if case.get("malformed"):
+        nd = len(case["doses"])
         if "error" in obs:
-            return [dict(kind="corr", clause="short-dose-list-other-error", detail=obs["error"])]
+            return [dict(kind="corr", clause="short-dose-list-other-error", detail=obs["error"] + " @" + obs.get("where", ""))]
         if model.get("error") != "reject:IndexError":
             out.append(dict(kind="corr", clause="model-accepts-short-dose-list", detail=str(model)[:200]))
         if "reject" not in obs:
-            out.append(dict(kind="corr", clause="impl-accepts-short-dose-list", detail=f"{len(doses)} doses for {N} images did not raise"))
+            # independent of model and implementation: images nd..N-1 have no dose, so no factor the statement allows exists for them
+            out.append(dict(kind="spec", clause="image-without-dose-filtered",
+                            detail=f"{nd} doses for {N} images of size {W}x{H} (dose source {case['dose_src']}): dose_filter returned a stack although images {nd}..{N-1} have no dose"))
         return out
     if "error" in obs:
         return [dict(kind="spec", clause="raises", detail=obs["error"] + " @" + obs.get("where", ""))]
-    if "error" in model:
-        return [dict(kind="corr", clause="model-rejects", detail=str(model))]
-    tols = _tols(case)
-    imgs = build_images(case)
-    res = _dec(obs["out"])
-    want_dtype = "float32" if case["dtype"] == "f4" else "float64"
-    if list(res.shape) != [N, H, W]:
-        return [dict(kind="spec", clause="output-shape", detail=f"returned {obs['info']['shape']} for {N} images {W}x{H}, order_out={case['order_out']}")]
-    if case["api"] == "stack" and obs["info"]["dtype"] != want_dtype:
-        out.append(dict(kind="corr", clause="output-dtype", detail=f"{obs['info']['dtype']} for a {want_dtype} stack"))
-    if case["api"] == "stack" and not obs.get("input_untouched", True):
-        out.append(dict(kind="corr", clause="input-modified", detail="dose_filter changed the caller's array"))
-    if not model.get("imagzero", False):
-        out.append(dict(kind="corr", clause="model-gain-not-real", detail="driver returned a multiplier with non-zero imaginary part"))
-    gains = [_table(t) for t in model["gain"]]
-    Fis, Fos = [], []
-    for i in range(N):
-        Fi, Fo = np.fft.fft2(imgs[i]), np.fft.fft2(res[i])
-        Fis.append(Fi); Fos.append(Fo)
-        Gs = _spec_gain(W, H, px, doses[i])
-        Gm = gains[i]
-        # (a) the statement itself, at every frequency
-        bad_all, bad_strong, dev_all, meas, _, _ = _cmp_gain(Fi, Fo, Gs, tols)
-        if bad_all.any() or bad_strong.any():
-            dev = np.where(bad_strong, 1.0 + np.abs(meas - Gs), dev_all)
-            v, u, kx, ky = _where(dev, W, H)
-            f = math.hypot(kx / (W * px), ky / (H * px))
-            clause = "zero-frequency-changed" if (kx, ky) == (0, 0) else ("zero-dose-not-identity" if doses[i] == 0 else "attenuation")
-            out.append(dict(kind="spec", clause=clause,
-                            detail=f"image {i} dose {doses[i]} px {px} size {W}x{H}: DFT coefficient [v={v},u={u}] (kx={kx},ky={ky}, f={f:.6g}/A) "
-                                   f"is multiplied by {Fo[v,u]/Fi[v,u] if abs(Fi[v,u])>0 else 'n/a'}; the property demands {Gs[v,u]:.12g}"))
-        # (b) mean / zero frequency
-        mtol = tols[2] * max(1.0, float(np.max(np.abs(imgs[i]))))
-        if abs(float(res[i].mean()) - float(imgs[i].mean())) > mtol:
-            out.append(dict(kind="spec", clause="mean-changed", detail=f"image {i}: mean {imgs[i].mean()!r} -> {res[i].mean()!r}"))
-        # (c) zero dose = identity, pixel-wise
-        if doses[i] == 0 and float(np.max(np.abs(res[i] - imgs[i]))) > mtol:
-            out.append(dict(kind="spec", clause="zero-dose-not-identity", detail=f"image {i}: max pixel change {np.max(np.abs(res[i]-imgs[i]))!r}"))
-        # (d) power never increases
-        scale = float(np.max(np.abs(Fi))) or 1.0
-        exc = np.abs(Fo) - np.abs(Fi) * (1 + tols[0]) - tols[2] * scale
-        if (exc > 0).any():
-            v, u, kx, ky = _where(exc, W, H)
-            out.append(dict(kind="spec", clause="power-increased", detail=f"image {i}: |DFT[{v},{u}]| {abs(Fi[v,u])!r} -> {abs(Fo[v,u])!r}"))
-        # (e) correspondence with the Lean model (same defs as the theorems), at every frequency
-        bad_all, bad_strong, dev_all, meas, _, _ = _cmp_gain(Fi, Fo, Gm, tols)
-        if bad_all.any() or bad_strong.any():
-            dev = np.where(bad_strong, 1.0 + np.abs(meas - Gm), dev_all)
-            v, u, kx, ky = _where(dev, W, H)
-            out.append(dict(kind="corr", clause="gain-vs-model", detail=f"image {i} dose {doses[i]}: coefficient [v={v},u={u}] measured gain "
-                            f"{Fo[v,u]/Fi[v,u] if abs(Fi[v,u])>0 else 'n/a'}, model {Gm[v,u]!r}"))
-        # (f) model at Float vs the statement's formula
-        md = np.abs(Gm - Gs) - (1e-12 * Gs + 1e-300)
-        if (md > 0).any():
-            v, u, kx, ky = _where(md, W, H)
-            out.append(dict(kind="corr", clause="model-vs-statement", detail=f"dose {doses[i]} [v={v},u={u}]: model {Gm[v,u]!r}, statement {Gs[v,u]!r}"))
-    # clauses over several images
-    if case["mode"] == "linear":
-        al, be = case["images"][2]["alpha"], case["images"][2]["beta"]
-        lin = al * res[0] + be * res[1]
-        sc = max(1.0, float(np.max(np.abs(lin))), float(np.max(np.abs(imgs[2]))))
-        if float(np.max(np.abs(res[2] - lin))) > 10 * tols[2] * sc:
-            out.append(dict(kind="spec", clause="not-linear", detail=f"filter({al}*x+{be}*y) differs from {al}*filter(x)+{be}*filter(y) by {np.max(np.abs(res[2]-lin))!r}"))
-    if case["mode"] == "monotone":
-        order = sorted(range(N), key=lambda i: doses[i])
-        scale = float(np.max(np.abs(Fis[0]))) or 1.0
-        for a, b in zip(order, order[1:]):
-            exc = np.abs(Fos[b]) - np.abs(Fos[a]) * (1 + tols[0]) - tols[2] * scale
-            if (exc > 0).any():
-                v, u, kx, ky = _where(exc, W, H)
-                out.append(dict(kind="spec", clause="more-dose-attenuates-less",
-                                detail=f"doses {doses[a]} <= {doses[b]} but |DFT[{v},{u}]| {abs(Fos[a][v,u])!r} < {abs(Fos[b][v,u])!r}"))
-                break
-    if case["mode"] == "compose":
-        second, once = _dec(obs["second"]), _dec(obs["once"])
-        sc = max(1.0, float(np.max(np.abs(once))))
-        if second.shape != once.shape or float(np.max(np.abs(second - once))) > 10 * tols[2] * sc:
-            out.append(dict(kind="spec", clause="compose-differs", detail=f"filter(d2) o filter(d1) differs from filter(d1+d2) by "
-                            f"{(np.max(np.abs(second-once)) if second.shape==once.shape else 'shape')!r}"))
-        if len(resps) >= 3 and "gain" in resps[1] and "gain" in resps[2]:
-            for i in range(N):
-                g12 = gains[i] * _table(resps[1]["gain"][i])
-                g = _table(resps[2]["gain"][i])
-                if float(np.max(np.abs(g12 - g) - 1e-12 * g)) > 1e-300:
+    pl = plan(case)
+    for c, r in zip(pl, resps):
+        if "error" in r:
+            return [dict(kind="corr", clause="model-rejects", detail=f"call {c['tag']}: {r}")]
+    inputs = _call_inputs(case, obs)
+    obs_calls = {o.get("tag"): o for o in obs.get("calls", [])}
+    int_in = case["dtype"] in INT_LIM
+    flags, st_acc = {}, {}
+    results, spectra = {}, {}
+    for ci, c in enumerate(pl):
+        tag = c["tag"]
+        o = obs_calls.get(tag)
+        if o is None or tag not in inputs:
+            out.append(dict(kind="corr", clause="call-not-observed", detail=f"call {tag} has no observation"))
+            continue
+        imgs, doses, px = inputs[tag]
+        info = o.get("info", {})
+        # ---- what came back (G3) and what happened to the caller's objects (G2)
+        if "out" not in o:
+            out.append(dict(kind="spec", clause="output-dtype", detail=f"call {tag}: returned {info.get('type')} of dtype {info.get('dtype')} ({info.get('unconvertible')}), not a numeric image stack"))
+            continue
+        res = _dec(o["out"])
+        if list(res.shape) != [N, H, W]:
+            out.append(dict(kind="spec", clause="output-shape", detail=f"call {tag}: returned shape {info.get('shape')} for {N} images {W}x{H}, "
+                            f"output_order={'omitted (default xyz)' if 'output_order' in (case.get('omit') or []) else case['order_out']}"))
+            continue
+        kind = info.get("kind", "f")
+        if kind == "c":
+            if info.get("imag_max", 0.0) > TOLS["f4"][2] * max(1.0, float(np.max(np.abs(res)))):
+                out.append(dict(kind="spec", clause="output-not-real", detail=f"call {tag}: complex result, max |imag| {info.get('imag_max')!r}"))
+            else:
+                out.append(dict(kind="corr", clause="output-dtype", detail=f"call {tag}: complex dtype {info.get('dtype')} (imaginary part negligible)"))
+        elif kind not in "fiu":
+            out.append(dict(kind="spec", clause="output-dtype", detail=f"call {tag}: dtype {info.get('dtype')} is not numeric"))
+            continue
+        elif kind in "iu" and not int_in:
+            out.append(dict(kind="spec", clause="output-dtype", detail=f"call {tag}: a {case['dtype']} stack came back as {info.get('dtype')}"))
+        want = str(np.dtype(NP_DT[case["dtype"]]))
+        if case["api"] == "stack" and kind in "fiu" and info.get("dtype") != want:
+            out.append(dict(kind="corr", clause="output-dtype", detail=f"call {tag}: {info.get('dtype')} for a {want} stack (model: dtype kept)"))
+        if not o.get("input_untouched", True):
+            out.append(dict(kind="spec", clause="input-modified", detail=f"call {tag}: the caller's {'file' if case.get('stack_src') == 'file' and tag != 'second' else 'array'} "
+                            f"passed as tilt_stack / image / freq_array differs after the call ({N} images {W}x{H}, dose {doses})"))
+        if not o.get("doses_untouched", True):
+            out.append(dict(kind="spec", clause="input-modified", detail=f"call {tag}: the caller's total_dose object ({c['src']}) differs after the call"))
+        if o.get("aliases_input"):
+            out.append(dict(kind="corr", clause="output-aliases-input", detail=f"call {tag}: the returned array shares memory with the caller's stack"))
+        # ---- per image
+        m = resps[ci] if ci < len(resps) else {}
+        if not m.get("imagzero", False):
+            out.append(dict(kind="corr", clause="model-gain-not-real", detail="driver returned a multiplier with non-zero imaginary part"))
+        gains = [_table(t) for t in m.get("gain", [])]
+        prec = "f4" if (case["dtype"] == "f4" or info.get("dtype") == "float32" or kind == "c" and info.get("dtype") == "complex64") else "f8"
+        tols = TOLS[prec]
+        int_out = int_in and kind in "iu"
+        Fis, Fos = [], []
+        for i in range(N):
+            Gs = _spec_gain(W, H, px, doses[i])
+            Gm = gains[i] if i < len(gains) else None
+            if int_out:
+                _judge_int(tag, i, imgs[i], res[i], Gs, Gm, doses[i], out, flags)
+            else:
+                Fi, Fo = _judge_float(tag, i, imgs[i], res[i], Gs, Gm, doses[i], px, W, H, tols, out, st_acc)
+                Fis.append(Fi); Fos.append(Fo)
+            if Gm is not None:   # (f) model at Float vs the statement's formula
+                md = np.abs(Gm - Gs) - (1e-12 * Gs + 1e-300)
+                if (md > 0).any():
+                    v, u, kx, ky = _where(md, W, H)
+                    out.append(dict(kind="corr", clause="model-vs-statement", detail=f"dose {doses[i]} [v={v},u={u}]: model {Gm[v,u]!r}, statement {Gs[v,u]!r}"))
+        results[tag] = (res, int_out, tols, gains)
+        spectra[tag] = (Fis, Fos)
+        # ---- the written file holds the result
+        if "file" in o:
+            fo = o["file"]
+            if not fo.get("ok"):
+                out.append(dict(kind="spec", clause="output-file", detail=f"call {tag}: output_file given but {fo.get('why')} (dims {fo.get('dims')}, mode {fo.get('mode')})"))
+            else:
+                fres = _dec(fo["out"])
+                if list(fres.shape) != [N, H, W]:
+                    out.append(dict(kind="spec", clause="output-file", detail=f"call {tag}: file holds nx,ny,nz = {fo.get('dims')} for {N} images {W}x{H}"))
+                else:
+                    if not int_out:
+                        facc = {}
+                        for i in range(N):
+                            sub = []
+                            _judge_float(tag + "(output file)", i, imgs[i], fres[i], _spec_gain(W, H, px, doses[i]), None, doses[i], px, W, H, TOLS["f4"], sub, facc)
+                            out.extend(dict(f, clause=f["clause"] + "(output-file)") for f in sub)
+                    expect = res if (int_out or prec == "f4") else res.astype(np.float32).astype(np.float64)
+                    if not np.array_equal(fres, expect):
+                        out.append(dict(kind="corr", clause="output-file-differs", detail=f"call {tag}: the file does not hold the returned stack (max diff {np.max(np.abs(fres-expect))!r})"))
+        elif case.get("out_file"):
+            out.append(dict(kind="corr", clause="output-file", detail=f"call {tag}: no observation of the output file"))
+    if "k1" in flags:
+        tag, i, dev, dmean = flags["k1"]
+        out.append(dict(kind="spec", clause="int-stack-truncated",
+                        detail=f"call {tag} image {i}: {case['dtype']} stack, result = trunc(filtered) exactly; differs from the filtered image by up to {dev:.3g} per pixel, mean changes by {dmean:.3g}"))
+    if obs.get("first_result_intact") is False:
+        out.append(dict(kind="spec", clause="earlier-result-changed", detail="the array returned by the first call changed its content during a later call"))
+    # ---- clauses over several images (floating-point results of the first call)
+    if "first" in results and not results["first"][1]:
+        res, _, tols, gains = results["first"]
+        rel, floor, pix = tols
+        imgs, doses, px = inputs["first"]
+        Fis, Fos = spectra["first"]
+        if case["mode"] == "linear":
+            al, be = case["images"][2]["alpha"], case["images"][2]["beta"]
+            lin = al * res[0] + be * res[1]
+            sc = max(1.0, float(np.max(np.abs(lin))), float(np.max(np.abs(imgs[2]))))
+            if float(np.max(np.abs(res[2] - lin))) > 10 * pix * sc:
+                out.append(dict(kind="spec", clause="not-linear", detail=f"filter({al}*x+{be}*y) differs from {al}*filter(x)+{be}*filter(y) by {np.max(np.abs(res[2]-lin))!r}"))
+        if case["mode"] == "monotone":
+            order = sorted(range(N), key=lambda i: doses[i])
+            scale = float(np.max(np.abs(Fis[0]))) or 1.0
+            for a, b in zip(order, order[1:]):
+                exc = np.abs(Fos[b]) - np.abs(Fos[a]) * (1 + rel) - 2 * floor * scale
+                if (exc > 0).any():
+                    v, u, kx, ky = _where(exc, W, H)
+                    out.append(dict(kind="spec", clause="more-dose-attenuates-less",
+                                    detail=f"doses {doses[a]} <= {doses[b]} but |DFT[{v},{u}]| {abs(Fos[a][v,u])!r} < {abs(Fos[b][v,u])!r}"))
+                    break
+        if case["mode"] == "compose" and "second" in results and "once" in results:
+            second, once = results["second"][0], results["once"][0]
+            sc = max(1.0, float(np.max(np.abs(once))))
+            if float(np.max(np.abs(second - once))) > 10 * pix * sc:
+                out.append(dict(kind="spec", clause="compose-differs", detail=f"filter(d2) o filter(d1) differs from filter(d1+d2) by {np.max(np.abs(second-once))!r}"))
+            g2, g12 = results["second"][3], results["once"][3]
+            for i in range(min(N, len(gains), len(g2), len(g12))):
+                gg = gains[i] * g2[i]
+                if float(np.max(np.abs(gg - g12[i]) - 1e-12 * g12[i])) > 1e-300:
                     out.append(dict(kind="corr", clause="model-compose", detail=f"image {i}: model gain(d1)*gain(d2) != gain(d1+d2) at Float beyond 1e-12"))
                     break
-    if case["api"] == "single" and len(resps) >= 2 and "freq" in resps[1]:
+    if case["api"] == "single" and len(resps) >= 2 and "freq" in resps[-1]:
+        ar = resps[-1]
         fa = _dec(obs["freq"])
-        fm = _table(resps[1]["freq"])
+        fm = _table(ar["freq"])
         if float(np.max(np.abs(fa - fm) - 1e-13 * np.abs(fa))) > 1e-300:
             out.append(dict(kind="corr", clause="freq-array-vs-model", detail="harness |fftfreq| array differs from the model's frequency_array"))
-        q, ql = _table(resps[1]["q"]), _table(resps[1]["qliteral"])
+        q, ql = _table(ar["q"]), _table(ar["qliteral"])
         if not np.array_equal(q, ql):
             out.append(dict(kind="corr", clause="qliteral-vs-model", detail="branch-free source expression at Float differs from the model's case split"))
         sx = np.round(np.fft.fftfreq(W) * W).astype(int).tolist()
         sy = np.round(np.fft.fftfreq(H) * H).astype(int).tolist()
-        if resps[1]["sfreqx"] != sx or resps[1]["sfreqy"] != sy:
+        if ar["sfreqx"] != sx or ar["sfreqy"] != sy:
             out.append(dict(kind="corr", clause="sfreq-vs-fftfreq", detail="model sfreq differs from numpy fftfreq"))
-        if [b2f(x) for x in resps[1]["consts"]] != [A_DOC, B_DOC, C_DOC]:
-            out.append(dict(kind="corr", clause="model-constants", detail=str([b2f(x) for x in resps[1]["consts"]])))
+        if [b2f(x) for x in ar["consts"]] != [A_DOC, B_DOC, C_DOC]:
+            out.append(dict(kind="corr", clause="model-constants", detail=str([b2f(x) for x in ar["consts"]])))
+    obs["_st"] = st_acc   # deviation statistics for stats() (not part of the judgement)
     return out
+
+
+def classify(case, obs, finding):
+    """C16-K1 (open): integer-typed stack, filtered result truncated into the integer array — exactly that and nothing else"""
+    if finding.get("clause") == "int-stack-truncated" and case.get("dtype") in INT_LIM:
+        return "C16-K1"
+    return None
 
 
 def nontrivial(case, obs):
@@ -657,36 +1284,43 @@ def stats(case, obs, resps):
     s = {"n_images": str(N), "parity(W,H)": ("even" if W % 2 == 0 else "odd") + "," + ("even" if H % 2 == 0 else "odd"),
          "size": "<=12" if max(W, H) <= 12 else ("<=24" if max(W, H) <= 24 else "<=64"), "square": str(W == H),
          "dtype": case["dtype"], "dose_src": case["dose_src"], "api": case["api"], "order(in,out)": case["order_in"] + "," + case["order_out"],
-         "mode": case.get("malformed") or case["mode"], "image_kind": [im["kind"] for im in case["images"]]}
+         "mode": case.get("malformed") or case["mode"], "image_kind": [im["kind"] for im in case["images"]],
+         "stack_src": case.get("stack_src", "array"), "output_file": str(bool(case.get("out_file"))),
+         "omitted_keywords": sorted(case.get("omit") or []) or ["none"], "surplus_doses": str(len(case.get("surplus") or [])),
+         "calls": [c["tag"] for c in plan(case)]}
+    if case.get("again"):
+        ag = case["again"]
+        s["again"] = ("rewritten-content" if ag.get("mutate") else "same-content") + "," + ag["dose_src"] + ("(same path)" if ag["dose_src"] in FILE_SRC and ag["dose_src"][:3] == case["dose_src"][:3] else
+                                                                                                     ("(same ndarray)" if ag.get("same_dose_obj") and ag["dose_src"] == case["dose_src"] and ag["dose_src"].startswith("nd") else ""))
     ds = [b2f(d) for d in case["doses"]]
     s["dose"] = ["0" if d == 0 else ("300" if d == 300 else ("<10" if d < 10 else ("<60" if d < 60 else "<300"))) for d in ds]
     s["dose_order"] = "n/a" if len(ds) < 2 else ("ascending" if ds == sorted(ds) else ("descending" if ds == sorted(ds, reverse=True) else "mixed"))
+    s["zero_before_nonzero"] = str(any(a == 0 and b > 0 for a, b in zip(ds, ds[1:])))
     px = b2f(case["px"])
     s["px"] = "0.5-1" if px < 1 else ("1-2" if px < 2 else ("2-5" if px < 5 else "5-10"))
-    if "out" in obs and resps and "gain" in resps[0] and not case.get("malformed"):
-        try:
-            imgs = build_images(case); res = _dec(obs["out"]); tols = _tols(case)
-            worst_rel, worst_abs, gmin = 0.0, 0.0, 1.0
-            for i in range(N):
-                G = _table(resps[0]["gain"][i])
-                _, _, _, _, r, a = _cmp_gain(np.fft.fft2(imgs[i]), np.fft.fft2(res[i]), G, tols)
-                worst_rel, worst_abs, gmin = max(worst_rel, r), max(worst_abs, a), min(gmin, float(G.min()))
-            s[f"max_rel_dev_gain_{case['dtype']}"] = _bucket(worst_rel)
-            s[f"max_abs_dev_spectrum_{case['dtype']}"] = _bucket(worst_abs)
-            s["min_model_gain"] = _bucket(gmin)
-        except Exception as e:
-            s["stats_error"] = type(e).__name__
+    for o in obs.get("calls", []) if isinstance(obs, dict) else []:
+        s.setdefault("returned_dtype", []).append(o.get("info", {}).get("dtype", "?"))
+    st = obs.get("_st") if isinstance(obs, dict) else None
+    if st:
+        p = "f4" if case["dtype"] == "f4" else "f8"
+        s[f"max_abs_dev_spectrum_{p}"] = _bucket(st.get("max_abs", 0.0))
+        s[f"max_dlog_gain_strong_{p}"] = _bucket(st.get("dlog", 0.0))
+        s[f"smallest_gain_checked_in_log_{p}"] = _bucket(st.get("gmin_checked", 1.0))
     return s
 
 
 def sample_view(case):
-    return dict(W=case["W"], H=case["H"], px=b2f(case["px"]), doses=[b2f(d) for d in case["doses"]], images=case["images"][:4],
-                mode=case["mode"], api=case["api"], dtype=case["dtype"], dose_src=case["dose_src"],
-                order=(case["order_in"], case["order_out"]), malformed=case.get("malformed"))
-
-
-def classify(case, obs, finding):
-    return None
+    v = dict(W=case["W"], H=case["H"], px=b2f(case["px"]), doses=[b2f(d) for d in case["doses"]], images=case["images"][:4],
+             mode=case["mode"], api=case["api"], dtype=case["dtype"], dose_src=case["dose_src"],
+             order=(case["order_in"], case["order_out"]), malformed=case.get("malformed"))
+    for k in ("omit", "stack_src", "out_file"):
+        if case.get(k):
+            v[k] = case[k]
+    if case.get("surplus"):
+        v["surplus"] = [b2f(d) for d in case["surplus"]]
+    if case.get("again"):
+        v["again"] = dict(case["again"], px=b2f(case["again"]["px"]), doses=[b2f(d) for d in case["again"]["doses"]])
+    return v
 
 
 # ------------------------------------------------------------------ probes of the recorded library assumptions
@@ -717,4 +1351,29 @@ def probes(rng):
     with np.errstate(divide="ignore"):
         z = np.exp(-np.float64(300.0) / (2 * (0.245 * np.float64(0.0) ** -1.665 + 2.81)))
     out.append(dict(name="zero-frequency-inf", ok=bool(z == 1.0), detail=f"exp(-300/(2*(a*0**b+c))) = {z!r}"))
+    # the exact 2x3 DFT of Lemmas/C16_Dft23 (dft23) is what numpy computes
+    x = r.integers(-8, 9, size=(2, 3)).astype(float)
+    s3 = math.sqrt(3.0)
+    c3 = lambda m: 1.0 if m % 3 == 0 else -0.5
+    n3 = lambda m: 0.0 if m % 3 == 0 else (s3 / 2 if m % 3 == 1 else -s3 / 2)
+    sg = lambda m: 1.0 if m % 2 == 0 else -1.0
+    F = np.array([[complex(sum(sg(v * y) * c3(u * i) * x[y, i] for y in range(2) for i in range(3)),
+                           -sum(sg(v * y) * n3(u * i) * x[y, i] for y in range(2) for i in range(3))) for u in range(3)] for v in range(2)])
+    dev = float(np.max(np.abs(F - np.fft.fft2(x))))
+    out.append(dict(name="dft23-is-numpy-fft2", ok=dev < 1e-12, detail=f"Lemmas/C16_Dft23 `dft23.fft2` formula vs numpy.fft.fft2 on a 2x3 image: max deviation {dev:.3g}"))
+    t = np.array([-1.7, -0.2, 0.9, 1.7, 2.999999]).astype(np.int16).tolist() == [-1, 0, 0, 1, 2]
+    out.append(dict(name="int-cast-truncates", ok=bool(t), detail="float -> int16 conversion truncates toward zero"))
+    try:
+        import mrcfile
+        with tempfile.TemporaryDirectory(prefix="c16p_") as td:
+            okm = True
+            for dt in (np.int16, np.float32, np.int8):
+                a = (np.arange(3 * 5 * 7).reshape(3, 5, 7) % 23 - 11).astype(dt)
+                p = os.path.join(td, "p.mrc")
+                mrcfile.write(p, a, overwrite=True)
+                q = parse_mrc(p)
+                okm &= q["ok"] and q["dims"] == [7, 5, 3] and np.array_equal(q["data"], a) and np.array_equal(mrcfile.open(p).data, a)
+        out.append(dict(name="mrc-parser-agrees-with-mrcfile", ok=bool(okm), detail="3x5x7 int8/int16/float32, header nx,ny,nz = 7,5,3, x fastest"))
+    except Exception as e:
+        out.append(dict(name="mrc-parser-agrees-with-mrcfile", ok=False, detail=f"{type(e).__name__}: {e}"))
     return out
